@@ -718,6 +718,12 @@ func genCase(r *rand.Rand) Case {
 	prof.PCall = []float64{0.2, 0.5}[r.IntN(2)]
 	prof.PBigNum = []float64{0.05, 0.3}[r.IntN(2)]
 	g := gen.Generate(r, prof)
+	if r.IntN(10) == 0 {
+		// account and asset names no literal can spell, as KEYS of the balances and metadata
+		// documents too: the library takes any string that arrives through a variable
+		pi := gen.OddNames(r, gen.PI{Prog: g.Prog, In: g.In})
+		g.Prog, g.In = pi.Prog, pi.In
+	}
 	c.Text = g.Prog.Text()
 	c.In = g.In
 	if r.IntN(40) == 0 {
